@@ -281,3 +281,13 @@ Proof.
     fold j in F1, F7. split; [unfold fb_parsed; rewrite F1; reflexivity|]. rewrite F7. cbn [bB fb_v po]. f_equal.
     pose proof (Hlen i0) as E. cbv zeta in E. fold i j in E. lia.
 Qed.
+
+(* ---- P-Asserted-Identity values: ParseOnePAI is the value parser plus the rejection of the star ------------------------------------------- *)
+Lemma pai_one_same buf offs s o e s' : parse_nameaddr HdrPAI buf offs s = Done o e s' -> fb_star s' = false -> parse_one_pai buf offs s = Done o e s'.
+Proof. intros H Hs. unfold parse_one_pai. rewrite H, Hs, Bool.andb_false_r. reflexivity. Qed.
+Lemma general_values_no_star h p L t i b d : fb_star b = false ->
+  fb_star (finW h d (t_apply p (i + nnat (length (its_bytes L))) t (its_state p i L b))) = false.
+Proof.
+  intros Hb. cbn [finW fb_star]. pose proof (t_apply_un p (i + nnat (length (its_bytes L))) t (its_state p i L b)) as U.
+  rewrite its_state_un in U. unfold unview in U. injection U as _ _ U3. rewrite U3. exact Hb.
+Qed.
